@@ -1457,3 +1457,41 @@ func (m *Model) RunZeroByteMatch(s *Sink, rule string) {
 	}
 	s.Note(rule, "table entries compared with the current byte", "-", "%d", n)
 }
+
+// RunIdentLiteral: a word read in code becomes an identifier or a keyword token by a lookup of its text; whichever it
+// is, the token's literal is the text that was read — the value handed to the lookup — so that the bytes of the
+// token's range are its literal (not the keyword's canonical spelling).
+func (m *Model) RunIdentLiteral(s *Sink, rule string) {
+	newTok := m.Method("lexer", "Lexer", "newToken")
+	li := m.PkgFunc("token", "LookupIdent")
+	if newTok == nil || li == nil {
+		s.Note(rule, "lexer|identifier literal", "-", "newToken / token.LookupIdent not found")
+		return
+	}
+	n := 0
+	for _, fn := range m.ModFns {
+		if fn.Blocks == nil || shortPkg(fnPkgPath(fn)) != "lexer" {
+			continue
+		}
+		for _, b := range fn.Blocks {
+			for _, in := range b.Instrs {
+				c, ok := in.(*ssa.Call)
+				if !ok || c.Call.StaticCallee() != newTok || len(c.Call.Args) < 3 {
+					continue
+				}
+				lc, isCall := c.Call.Args[1].(*ssa.Call)
+				if !isCall || lc.Call.StaticCallee() != li || len(lc.Call.Args) != 1 {
+					continue
+				}
+				n++
+				key := fmt.Sprintf("%s|the literal of an identifier or keyword token is the word that was read", fnKey(fn))
+				if c.Call.Args[2] == lc.Call.Args[0] {
+					s.OK(rule, key, m.InstrPos(c), "newToken(LookupIdent(word), word)")
+				} else {
+					s.Violation(rule, key, m.InstrPos(c), "%s looks the word %s up and builds the token with the literal %s: for a keyword written differently from its canonical spelling the literal is not the text of the token's range", fnKey(fn), valueDesc(lc.Call.Args[0]), valueDesc(c.Call.Args[2]))
+				}
+			}
+		}
+	}
+	s.Note(rule, "identifier / keyword tokens", "-", "%d construction sites", n)
+}
